@@ -316,7 +316,11 @@ def run(ctx: Ctx) -> int:
         for q in (f"ds.Select(lambda e: e.{C}('A').Select(lambda j: e.{C}('B').Where(lambda k: k.MethF(1.0) > j.MethF(0.5)).Count()))",
                   f"ds.Select(lambda e: (e.{C}('A').Select(lambda j: j.MethF(2.0)), e.{C}('B').Select(lambda k: k.MethF(3.0))))",
                   f"ds.Select(lambda e: e.{C}('A').Select(lambda j: j.tracks().Select(lambda t: j.MethF(t.pt()))))",
-                  f"ds.Select(lambda e: e.{C}('A').Select(lambda a: a.MethF(1.0) + e.{C}('B').Select(lambda b: b.MethF(a.MethF(2.0))).Sum()))"):
+                  f"ds.Select(lambda e: e.{C}('A').Select(lambda a: a.MethF(1.0) + e.{C}('B').Select(lambda b: b.MethF(a.MethF(2.0))).Sum()))",
+                  # the receiver is an EXPRESSION once the query is simplified (the first object of the event handed to the next Select)
+                  f"ds.Where(lambda e: e.{C}('A').Count() > 0).Select(lambda e: e.{C}('A').First()).Select(lambda j: j.MethF(2.0))",
+                  f"ds.Where(lambda e: e.{C}('A').Count() > 1).Select(lambda e: e.{C}('A')[1]).Select(lambda j: (j.MethF(0.5), j.pt()))",
+                  f"ds.Select(lambda e: e.{C}('A').Where(lambda j: j.tracks().Count() > 0).Select(lambda j: j.tracks().First()).Select(lambda t: t.MethF(3.0)))"):
             c = diff.Case(backend, q, evs, diff.members_used(s, q) + [methf], tag={"builtin": True, "method": True, "method_at_several_sites": True},
                           extra_globals={"MethF__m": lambda o, f: o.pt() * f + o.eta()})
             c.ref_query = re.sub(r"\b(\w+)\.MethF\(", r"MethF__m(\1, ", q)  # type: ignore
